@@ -218,6 +218,9 @@ def _derives_from(fn, node, call, depth=0):
 
 
 def check_scatter_gather(ctx, R):
+    """on the let-normal form of every normal path: exactly one client.<prim>(<incoming value>, asynchronous=True) whose
+    value is awaited; exactly one emission, of that value (scatter: its element 0), with the incoming metadata"""
+    from ..symexpr import SymEval, nf
     M = ctx.model
     for name, prim in (('scatter', 'scatter'), ('gather', 'gather')):
         c = M.cls('streamz.dask', name)
@@ -225,46 +228,48 @@ def check_scatter_gather(ctx, R):
         if fn is None:
             raise AnalysisError('anchor vanished: dask.%s.update' % name)
         con = ctx.construct(fn)
-        calls = [n for n in own_nodes(fn.node) if isinstance(n, ast.Call) and isinstance(n.func, ast.Attribute)
-                 and n.func.attr == prim and src(n.func.value) == 'client']
-        ok, detail = len(calls) == 1, 'expected exactly one client.%s call' % prim
-        if ok:
-            call = calls[0]
-            a0 = src(call.args[0]).replace(' ', '') if call.args else ''
-            asyn = any(k.arg == 'asynchronous' and isinstance(k.value, ast.Constant) and k.value.value is True for k in call.keywords)
+        paths = [r for r in SymEval(M, c, name_calls=True).run(fn) if not r.raised]
+        if not paths:
+            raise AnalysisError('%s: no normal path (unrecognised spelling)' % con)
+        bad_call, bad_em, bad_single = None, None, None
+        for r in paths:
+            prims = []
+            for k, (cl, s_, l) in enumerate(r.calls):
+                if isinstance(cl, ast.Call) and isinstance(cl.func, ast.Attribute) and cl.func.attr == prim:
+                    rv = nf(cl.func.value)
+                    if rv == 'client' or (rv[:1] == 'C' and rv[1:].isdigit() and nf(r.calls[int(rv[1:])][0]) == 'default_client()'):
+                        prims.append((k, cl))
+            if len(prims) != 1:
+                bad_call = bad_call or 'expected exactly one client.%s call, found %d' % (prim, len(prims))
+                continue
+            k, call = prims[0]
+            a0 = nf(call.args[0]) if call.args else ''
+            asyn = any(kw.arg == 'asynchronous' and isinstance(kw.value, ast.Constant) and kw.value.value is True for kw in call.keywords)
             if name == 'scatter' and a0 != '[x]':
-                ok, detail = False, 'client.scatter is not given [x] (lists and dicts are treated differently by dask)'
+                bad_call = bad_call or 'client.scatter is not given [x] (lists and dicts are treated differently by dask)'
             if name == 'gather' and a0 != 'x':
-                ok, detail = False, 'client.gather is not given the incoming future x'
+                bad_call = bad_call or 'client.gather is not given the incoming future x'
             if not asyn:
-                ok, detail = False, 'client.%s is not called with asynchronous=True' % prim
-            awaited = any(isinstance(y, (ast.Yield, ast.Await)) and y.value is call for y in own_nodes(fn.node))
-            if not awaited:
-                ok, detail = False, 'the result of client.%s is not awaited' % prim
-        R.ob('SCATTER-GATHER', con, 'boundary-call', ok, detail, ctx.where(fn, calls[0].lineno if calls else fn.node.lineno))
-        # the emitted value derives from the awaited conversion
-        bad, n = None, 0
-        for st, status in ctx.paths(fn, c):
-            evs = st.events
-            ems = [e for e in evs if e.kind == 'EM']
-            if status == 'raise' or any(e.kind == 'EXC' for e in evs):
+                bad_call = bad_call or 'client.%s is not called with asynchronous=True' % prim
+            if k not in r.awaited_calls:
+                bad_call = bad_call or 'the result of client.%s is not awaited' % prim
+            if len(r.emits) != 1:
+                bad_em = bad_em or 'the node emits %d times on a normal path' % len(r.emits)
                 continue
-            n += 1
-            if len(ems) != 1:
-                bad = evs
-                continue
-            d = ems[0].x.get('data')
-            if not (calls and _derives_from(fn, d, calls[0])):
-                bad = evs
-            if ems[0].b != frozenset({'md'}):
-                bad = evs
-        from ..paths import fmt_path
-        R.ob('SCATTER-GATHER', con, 'emits-converted-value-once', bad is None and n > 0,
-             'the node does not emit exactly once the converted value with the incoming metadata',
-             ctx.where(fn, fn.node.lineno), fmt_path(bad) if bad else None, n)
+            data, md, s_, l = r.emits[0]
+            want = 'FIRST(C%d)' % k if name == 'scatter' else 'C%d' % k
+            if nf(md) != 'metadata' or l:
+                bad_em = bad_em or 'the emission does not carry the incoming metadata'
+            if nf(data) != want:
+                if name == 'scatter' and nf(data) == 'C%d' % k:
+                    bad_single = 'the single future is not taken out of the scattered list'
+                else:
+                    bad_em = bad_em or 'the emitted value is %s, not the converted value' % nf(data)[:60]
+            if 0 not in r.awaited:
+                bad_em = bad_em or 'the emission is not awaited'
+        R.ob('SCATTER-GATHER', con, 'boundary-call', bad_call is None, bad_call or '', ctx.where(fn, fn.node.lineno), None, len(paths))
+        R.ob('SCATTER-GATHER', con, 'emits-converted-value-once', bad_em is None and bad_call is None,
+             bad_em or bad_call or '', ctx.where(fn, fn.node.lineno), None, len(paths))
         if name == 'scatter':
-            # future_as_list[0]
-            idx = [s for s in own_nodes(fn.node) if isinstance(s, ast.Assign) and isinstance(s.value, ast.Subscript)
-                   and src(s.value.slice) == '0']
-            R.ob('SCATTER-GATHER', con, 'single-future', bool(idx), 'the single future is not taken out of the scattered list',
+            R.ob('SCATTER-GATHER', con, 'single-future', bad_single is None and bad_call is None, bad_single or bad_call or '',
                  ctx.where(fn, fn.node.lineno))
